@@ -424,7 +424,9 @@ func objectDefineOwnProperty(obj *object, name string, descriptor property, thro
 		// (Maybe put into switch ...)
 		mode0 := prop.mode
 		if mode1&0o200 != 0 {
-			if descriptor.isDataDescriptor() {
+			// "writable" is missing from the descriptor: keep the current setting,
+			// unless the property is (or becomes) an accessor property.
+			if descriptor.isDataDescriptor() || (isDataDescriptor && descriptor.isGenericDescriptor()) {
 				mode1 &= ^0o200 // Turn off "writable" missing
 				mode1 |= (mode0 & 0o100)
 			}
